@@ -60,7 +60,7 @@ def _owner(R, hnd):
 
 
 def model_lines(c, obs):
-    return [prov.cfg_line(c["oidc"])] + [prov.model_line(o) for o in obs["ops"]]
+    return [prov.cfg_line(c["oidc"], c["jwt"])] + [prov.model_line(o) for o in obs["ops"]]
 
 
 def compare(c, obs, outs):
